@@ -489,10 +489,27 @@ func c11Gen(tier string, r *hx.Rng) {
 		np = 200000
 	}
 	for i := 0; i < np; i++ {
-		n := 1 + r.Intn(9)
 		var b strings.Builder
-		for j := 0; j < n; j++ {
-			b.WriteString(hx.Pick(r, pieces))
+		if i%2 == 0 {
+			n := 1 + r.Intn(9)
+			for j := 0; j < n; j++ {
+				b.WriteString(hx.Pick(r, pieces))
+			}
+		} else {
+			// structured: mostly well formed, with local corruptions
+			opt := func(p int, s string) string {
+				if r.Intn(p) == 0 {
+					return s
+				}
+				return ""
+			}
+			b.WriteString(hx.Pick(r, []string{"P", "P.S", "TOP.fork0", "TOP.forkX.S", "A.fork1.chnk0.B", "", "x.fork_a.u0123456789.y"}))
+			b.WriteString(hx.Pick(r, []string{".fork", ".fork", ".fork", ".fork", "fork", ".Fork", ".fork.", ".forkfork"}))
+			b.WriteString(hx.Pick(r, []string{"0", "1", "03", "12", "_a", "_a%252Fb", "1_fork0", "0%2Ffork_x", "_", "-0", "+1", "", "_%2E", "x"}))
+			b.WriteString(opt(2, hx.Pick(r, []string{".chnk0", ".chnk07", ".chnk12", ".chnk", ".chnkx", ".chnk1x", ".chnk999999999999", ".chunk1"})))
+			b.WriteString(opt(2, hx.Pick(r, []string{".u0123456789", ".uabcdef0123", ".u012345678", ".u01234567890", ".uABCDEF0123", ".u", ".u012345678g"})))
+			b.WriteString(hx.Pick(r, []string{".", ".", ".", "", ".."}))
+			b.WriteString(hx.Pick(r, []string{"complete", "errors", "split_complete", "join_errors", "progress", "", "a.b", "chnk3", "u0123456789", "fork0", ".fork1.x", "chnk3.log", "u0123456789.log"}))
 		}
 		fmt.Fprintf(w, "p %s\n", hx.H(b.String()))
 	}
